@@ -6,6 +6,7 @@ import JSight.ExampleKProofs
 import JSight.ExampleKWitness
 import JSight.ExampleAllOf
 import JSight.ExampleTextRProofs
+import JSight.KeysRawProofs
 import JSight.E2E
 /-!
 # C15 — Example() emits well-formed JSON
@@ -226,7 +227,8 @@ of the tree): `C15_annotated_text_roundtrip_of_keys` proves the roundtrip for ev
 `C15_annotated_text_roundtrip_partial` discharges it for the trees whose objects are all empty (`ATree.keyless`:
 arrays of any nesting, annotated scalars, `{}`), where it is vacuous. For trees with keys the link is checked on the code
 and on the model by `c15-text` (stream T: `ATree.compact` = model = real `Example()`); the statement at full strength is
-`C15_annotated_text_roundtrip_full`. -/
+`C15_annotated_text_roundtrip_full` — PROVED further down (`C15_annotated_keys_raw`,
+`C15_annotated_text_roundtrip_full_holds`; work package c15keys). -/
 
 open AT in
 theorem C15_text_builder_extends (bs out : List UInt8) (h : Loader.exampleText bs = .ok out) :
@@ -297,6 +299,67 @@ def C15_annotated_self_valid_full : Prop :=
     E2E.validateText (AT.docText w0 t w1) [] t.compact ≠ .rej ∧
     ∀ c p, E2E.validateText (AT.docText w0 t w1) [] t.compact ≠ .docErr c p
 
+/-! ## The missing link `AT.KeysRaw` (work package c15keys; modules `KeysLoad`, `KeysAnn`, `KeysDefs`, `KeysSeg`, `KeysTok`,
+`KeysInd1` … `KeysInd5`, `KeysThm`, `KeysRawProofs`)
+
+`C13_annotated_tree_loads` reads the loaded table through `Loader.absX` (DECODED keys: what `GetAST` shows). The builder
+emits the key TOKENS. `Loader.K.absK` is `absX` with the key token `src[b..e]` of every recorded key span `(b, e)` in the
+`keys` slot (`Loader.K.dec` maps it to what `absX` shows); `AT.ATree.tableK` is `ATree.table` with the key tokens of the
+tree as written (`AMembers.rkeys`, quotes and escapes included). The `ATreeLoad*` induction is run once more over this
+abstraction (scanner side shared; the loader lemmas `X_*`, `Loads`, `Seg`, the three statements and the root theorems
+again; `loads_key` records the TOKEN and keeps the loader's duplicate test on the decoded keys):
+`C15_annotated_tree_loads_keys`. `C15_annotated_keys_raw` is `AT.KeysRaw` for every well-formed annotated tree, and with
+`C15_annotated_text_roundtrip_of_keys` the round trip holds for ALL annotated trees of the class. -/
+
+/-- **the text of a well-formed annotated tree loads into the table the tree denotes, key TOKENS included**: node by
+node the key spans the loader records are the key tokens of the corresponding members, in source order, as written -/
+theorem C15_annotated_tree_loads_keys (w0 : AT.Gap) (t : AT.ATree) (w1 : AT.Gap) (hc : t.isContainer = true)
+    (hl : AT.lineOK w0 t = true) (hw : AT.TokOK (AT.docToks w0 t w1)) :
+    ∃ st, Loader.loadText (AT.docText w0 t w1) = .ok st ∧ st.root = some 0 ∧
+      st.nodes.toList.map (Loader.K.absK (AT.docText w0 t w1).toArray) = t.tableK :=
+  AT.K.tree_loads_keys w0 t w1 hc hl hw
+
+/-- the two tables agree: decoding the key tokens of `tableK` gives `table` (so `C15_annotated_tree_loads_keys` refines
+`C13_annotated_tree_loads`) -/
+theorem C15_tableK_decodes (t : AT.ATree) :
+    t.tableK.map (fun x => { x with keys := x.keys.map Loader.K.dec }) = t.table := AT.tableK_dec t
+
+/-- **the missing link**: for every well-formed annotated tree (container root, line discipline, token grammar) the
+loaded key spans, read against the text, are the tree's key tokens — `AT.KeysRaw` holds -/
+theorem C15_annotated_keys_raw (w0 : AT.Gap) (t : AT.ATree) (w1 : AT.Gap) (hc : t.isContainer = true)
+    (hl : AT.lineOK w0 t = true) (hw : AT.TokOK (AT.docToks w0 t w1)) : AT.KeysRaw w0 t w1 :=
+  AT.keysRaw w0 t w1 hc hl hw
+
+/-- **every annotated tree of the class** (container root, line discipline, token grammar, no container carries `or` /
+`allOf`), any layout, comments, annotations (inline / multi-line, before / behind the comma, notes), any keys (escapes
+included): scanner model → loader model → builder emits the compact JSON text of the tree's VALUE, scalar and key tokens
+byte for byte -/
+theorem C15_annotated_text_roundtrip (w0 : AT.Gap) (t : AT.ATree) (w1 : AT.Gap) (hc : t.isContainer = true)
+    (hl : AT.lineOK w0 t = true) (hw : AT.TokOK (AT.docToks w0 t w1)) (hx : t.exClass = true) :
+    Loader.exampleTextR (AT.docText w0 t w1) = .ok t.compact :=
+  AT.annotated_roundtrip w0 t w1 hc hl hw hx
+
+/-- the statement at full strength holds -/
+theorem C15_annotated_text_roundtrip_full_holds : C15_annotated_text_roundtrip_full :=
+  fun w0 t w1 hc hl hw hx => AT.annotated_roundtrip w0 t w1 hc hl hw hx
+
+/-- non-vacuity, a pretty-printed tree WITH keys and annotations (`AT.Ex.t1`):
+`{ // {min: 0} - note⏎"a": 1 /* {min: 0} */,⏎"aa": [⏎1, // {min: 0} - note⏎2⏎]⏎}` ↦ `{"a":1,"aa":[1,2]}` -/
+example : Loader.exampleTextR (AT.docText [] AT.Ex.t1 [])
+    = .ok [123, 34, 97, 34, 58, 49, 44, 34, 97, 97, 34, 58, 91, 49, 44, 50, 93, 125] :=
+  C15_annotated_text_roundtrip [] AT.Ex.t1 [] rfl AT.Ex.t1_line AT.Ex.t1_tok rfl
+
+/-- non-vacuity, a key with an escape: `{"\u0061": 1, "aa": [ ] }` ↦ `{"\u0061":1,"aa":[]}` — the TOKEN, not the
+decoded key `a` -/
+example : Loader.exampleTextR (AT.docText [] AT.ExKeys.tEsc [])
+    = .ok [123, 34, 92, 117, 48, 48, 54, 49, 34, 58, 49, 44, 34, 97, 97, 34, 58, 91, 93, 125] :=
+  C15_annotated_text_roundtrip [] AT.ExKeys.tEsc [] rfl AT.ExKeys.tEsc_line AT.ExKeys.tEsc_tok rfl
+
+/-- non-vacuity (`C15_annotated_keys_raw`): the raw keys of `tEsc`, node by node -/
+example : AT.ExKeys.tEsc.rawKeys = [[[34, 92, 117, 48, 48, 54, 49, 34], [34, 97, 97, 34]], [], []] := by decide
+
+example := C15_annotated_keys_raw [] AT.ExKeys.tEsc [] rfl AT.ExKeys.tEsc_line AT.ExKeys.tEsc_tok
+
 end Props.C15
 
 #print axioms Props.C15.C15_text_builder_extends
@@ -305,3 +368,8 @@ end Props.C15
 #print axioms Props.C15.C15_annotated_text_roundtrip_partial
 #print axioms Props.C15.C15_annotated_text_roundtrip_full_of_keys
 #print axioms Props.C15.C15_annotated_result_is_json
+#print axioms Props.C15.C15_annotated_tree_loads_keys
+#print axioms Props.C15.C15_tableK_decodes
+#print axioms Props.C15.C15_annotated_keys_raw
+#print axioms Props.C15.C15_annotated_text_roundtrip
+#print axioms Props.C15.C15_annotated_text_roundtrip_full_holds
